@@ -69,6 +69,19 @@ def run(prop, tier, seed, replay=None):
             up = S.universe_path(name)
             u = json.load(open(up))
             hs0 = histories(u, rnd, n_h, ln)
+            if name == "core":
+                # parallel stores in which one store is refused AFTER its append (11 names the stored foreign event 1:
+                # InvalidDelete) while the others append: whatever the refused one does to the map must not touch theirs
+                S_ = lambda i: {"k": "store", "a": i}
+                for _ in range(8 if tier == "quick" else 40):
+                    h = [S_(1), S_(2)]
+                    for _ in range(6):
+                        others = rnd.sample([3, 4, 5, 6, 7, 9, 10, 12, 13], 3)
+                        evs = others + [11]
+                        rnd.shuffle(evs)
+                        h.append({"k": "pstore", "a": 0, "evs": evs})
+                        h.append({"k": "remove", "a": rnd.choice(others)})
+                    hs0.append(h)
             if name == "sz":
                 # two ephemeral events of one author and kind back to back (nothing is indexed, the offsets stay readable)
                 S_ = lambda i: {"k": "store", "a": i}
